@@ -63,6 +63,68 @@ M = [
     ("c06-hct-expand-early", "C06", "PyXAB/algos/HCT.py", "and end_node.get_visited_times() >= self.tau_h[en_depth]", "and end_node.get_visited_times() + 1 >= self.tau_h[en_depth]"),
     ("c06-vhct-reexpand", "C06", "PyXAB/algos/VHCT.py", "            end_node.get_children() is None\n            and end_node.get_visited_times()", "            end_node.get_visited_times()"),
     ("c06-hct-tau-exp", "C06", "PyXAB/algos/HCT.py", "* self.rho ** (-2 * i)", "* self.rho ** (-i)"),
+    # ---- C07
+    ("c07-doo-default-zero", "C07", "PyXAB/algos/DOO.py", "self.reward = -np.inf", "self.reward = 0"),
+    ("c07-soo-reco-min", "C07", "PyXAB/algos/SOO.py", "            for node in node_list[h]:\n                if node.get_reward() >= max_value:", "            for node in node_list[h]:\n                if node.visited and -node.get_reward() >= max_value:"),
+    ("c07-sequool-reco-first", "C07", "PyXAB/algos/SequOOL.py", "            if node.get_reward() >= max_value:\n                max_node = node", "            if node.get_reward() > max_value + 0.3:\n                max_node = node"),
+    ("c07-stosoo-reco-shallow", "C07", "PyXAB/algos/StoSOO.py", "max_depth = self.partition.get_depth()\n", "max_depth = max(self.partition.get_depth() - 1, 0)\n"),
+    ("c07-stroquool-reco-min", "C07", "PyXAB/algos/StroquOOL.py", "        for node in candidates:\n            node.compute_mean_reward()\n            if node.get_mean_reward() >= max_value:", "        for node in candidates:\n            node.compute_mean_reward()\n            if node.get_mean_reward() >= max_value and node.get_depth() < 3:"),
+    ("c07-poo-reco-argmin", "C07", "PyXAB/algos/POO.py", "max_param = np.argmax(V_reward)", "max_param = np.argmax(np.abs(V_reward))"),
+    ("c09-gpo-final-last", "C09", "PyXAB/algos/GPO.py", "                maxind = np.argmax(np.array(self.V_reward))\n                self.goodx = self.V_x[maxind]", "                maxind = len(self.V_reward) - 1\n                self.goodx = self.V_x[maxind]"),
+    ("c07-gpo-reco-argmin", "C07", "PyXAB/algos/GPO.py", "        return self.V_x[np.argmax(np.array(self.V_reward))]", "        return self.V_x[np.argmax(np.array(self.V_reward[:-1] + [np.inf]))]"),
+    # ---- C08
+    ("c08-soo-no-vmax-EQUIVALENT", "C08", "PyXAB/algos/SOO.py", "                if max_value >= v_max:\n", "                if True:\n"),
+    ("c08-soo-min-leaf", "C08", "PyXAB/algos/SOO.py", "                            node.get_reward() >= max_value\n                        ):  # find", "                            node.get_reward() >= max_value or max_node is None\n                        ) and h % 3 != 2 or max_node is None:  # find"),
+    ("c08-stosoo-k-plus-one", "C08", "PyXAB/algos/StoSOO.py", "get_visited_times() < self.k:", "get_visited_times() <= self.k:"),
+    ("c08-stosoo-b-width", "C08", "PyXAB/algos/StoSOO.py", "np.log(n * k / delta) / (2 * self.visited_times)", "np.log(n * k / delta) / (self.visited_times)"),
+    ("c08-doo-b-depth", "C08", "PyXAB/algos/DOO.py", "            delta = self.delta(h)\n", "            delta = self.delta(min(h, 3))\n"),
+    ("c08-doo-two-expansions", "C08", "PyXAB/algos/DOO.py", "                h = 0\n", "                h = 0\n                if max_node.get_depth() == 4:\n                    self.partition.make_children(max_node.get_children()[0], newlayer=(max_node.get_depth() + 1 >= self.partition.get_depth()))\n"),
+    ("c08-soo-cap-ignored", "C08", "PyXAB/algos/SOO.py", "while h <= min(self.partition.get_depth(), self.h_max):", "while h <= min(self.partition.get_depth(), self.h_max + 1):"),
+    # ---- C09
+    ("c09-gpo-rollover-in-pull", "C09", "PyXAB/algos/GPO.py", "        if self.counter >= 2 * self.half_phase_length:\n            self.phase += 1\n            self.counter = 0\n", "        if self.counter >= 2 * self.half_phase_length + 1:\n            self.phase += 1\n            self.counter = 0\n"),
+    ("c09-gpo-rho-grid", "C09", "PyXAB/algos/GPO.py", "rho = self.rhomax ** (2 * self.N / (2 * self.phase + 1))", "rho = self.rhomax ** (2 * self.N / (2 * self.phase + 3))"),
+    ("c09-gpo-N-formula", "C09", "PyXAB/algos/GPO.py", "np.log((self.rounds / 2) / np.log(self.rounds / 2))", "np.log((self.rounds) / np.log(self.rounds / 2))"),
+    ("c09-gpo-score-offbyone", "C09", "PyXAB/algos/GPO.py", ") / (self.counter - self.half_phase_length + 1)", ") / (self.counter - self.half_phase_length + 2)"),
+    ("c09-gpo-final-goodx", "C09", "PyXAB/algos/GPO.py", "                maxind = np.argmax(np.array(self.V_reward))\n                self.goodx = self.V_x[maxind]", "                maxind = np.argmin(np.array(self.V_reward))\n                self.goodx = self.V_x[maxind]"),
+    # ---- C10
+    ("c10-poo-score-counter", "C10", "PyXAB/algos/POO.py", "* np.ceil(self.n / self.N) + reward\n            ) / (np.ceil(self.n / self.N) + 1)", "* np.ceil(self.n / self.N) + reward\n            ) / (np.ceil(self.n / self.N) + 2)"),
+    ("c10-poo-route-zero", "C10", "PyXAB/algos/POO.py", "            self.V_algo[self.algo_counter].receive_reward(time, reward)", "            self.V_algo[0].receive_reward(time, reward)"),
+    ("c10-poo-n-increment", "C10", "PyXAB/algos/POO.py", "                self.n = self.n + self.N\n", "                self.n = self.n + self.N + 1\n"),
+    ("c10-poo-times", "C10", "PyXAB/algos/POO.py", "            self.Times[self.algo_counter] += 1", "            self.Times[self.algo_counter] += 1 if self.algo_counter else 2"),
+    ("c10-poo-rho-dup", "C10", "PyXAB/algos/POO.py", "rho = self.rhomax ** (2 * self.N / (2 * self.phase + 1))", "rho = self.rhomax ** (2 * self.N / (2 * (self.phase // 2) + 1))"),
+    # ---- C11
+    ("c11-zooming-handover", "C11", "PyXAB/algos/Zooming.py", "                        arm_assigned\n                        or point[dim]", "                        point[dim]"),
+    ("c11-zooming-index", "C11", "PyXAB/algos/Zooming.py", "arm_r_t = self.average_rewards[arm] + 2 * np.sqrt(", "arm_r_t = self.average_rewards[arm] + np.sqrt("),
+    ("c11-zooming-refine-rule", "C11", "PyXAB/algos/Zooming.py", "<= self.nu * self.rho ** parent.get_depth()", "<= self.nu * self.rho ** (parent.get_depth() + 1)"),
+    ("c11-zooming-argmin", "C11", "PyXAB/algos/Zooming.py", "            if arm_r_t >= maximum_r_t:", "            if arm_r_t >= maximum_r_t and self.pulled_times[arm] < 9:"),
+    ("c11-zooming-phase", "C11", "PyXAB/algos/Zooming.py", "            self.next_end_time += 2 ** self.phase", "            self.next_end_time += 2 * self.phase"),
+    # ---- C12
+    ("c12-sequool-budget", "C12", "PyXAB/algos/SequOOL.py", "                            self.budget = math.floor(self.h_max / self.curr_depth)\n                        self.curr_node = max_node", "                            self.budget = math.floor(self.h_max / self.curr_depth) + 1\n                        self.curr_node = max_node"),
+    ("c12-sequool-hmax", "C12", "PyXAB/algos/SequOOL.py", "self.h_max = math.floor(n / self.harmonic_series_sum(n))", "self.h_max = math.floor(n / self.harmonic_series_sum(n)) - 1"),
+    ("c12-sequool-argmin", "C12", "PyXAB/algos/SequOOL.py", "                        if node.get_reward() >= max_value:\n                            max_value = node.get_reward()\n                            max_node = node\n\n                if max_node.get_children()", "                        if node.get_reward() >= max_value or num == 2:\n                            max_value = node.get_reward()\n                            max_node = node\n\n                if max_node.get_children()"),
+    ("c12-sequool-loc-skip", "C12", "PyXAB/algos/SequOOL.py", "                    if self.loc == len(max_node.get_children()) - 1:", "                    if self.loc >= len(max_node.get_children()) - 1 - (1 if self.curr_depth == 3 and len(max_node.get_children()) > 2 else 0):"),
+    # ---- C13
+    ("c13-vroom-rank-asc", "C13", "PyXAB/algos/VROOM.py", "rank = sorted(nodes, key=rank_fun, reverse=True)", "rank = sorted(nodes, key=rank_fun, reverse=False)"),
+    ("c13-vroom-prob", "C13", "PyXAB/algos/VROOM.py", "self.prob.append(1 / (h * node_list[h][l].get_rank()[-1] * self.const))", "self.prob.append(1 / (h * (2 ** h + 1 - node_list[h][l].get_rank()[-1]) * self.const))"),
+    ("c13-vroom-lcb", "C13", "PyXAB/algos/VROOM.py", "return node.get_mean_reward() - np.sqrt(", "return node.get_mean_reward() + np.sqrt("),
+    ("c13-vroom-wrong-node", "C13", "PyXAB/algos/VROOM.py", "        node = node_list[idx[0]][idx[1]]\n\n        # sample point", "        node = node_list[idx[0]][idx[1] ^ (1 if idx[0] == 3 else 0)]\n\n        # sample point"),
+    # ---- C14
+    ("c14-hct-class-state", "C14", "PyXAB/algos/HCT.py", "        self.tau_h = [0]  # Threshold on each layer\n", "        self.tau_h = [0]  # Threshold on each layer\n        HCT._count = getattr(HCT, '_count', 0) + 1\n        self.c = c * (1 + 0.01 * (HCT._count > 1))\n"),
+    ("c14-partition-mutates-domain", "C14", "PyXAB/partition/Partition.py", "        self.domain = domain\n", "        self.domain = domain\n        domain[0][0] = domain[0][0] + 0.0 if len(domain) < 2 else domain[0][0] * 1.0000001\n"),
+    ("c14-soo-time-tiebreak", "C14", "PyXAB/algos/SOO.py", "                            node.get_reward() >= max_value\n                        ):  # find", "                            node.get_reward() > max_value or (node.get_reward() == max_value and __import__('time').time_ns() % 2 == 0)\n                        ):  # find"),
+    ("c14-zooming-hash-order", "C14", "PyXAB/algos/Zooming.py", "        for arm in self.active_points.keys():", "        for arm in sorted(self.active_points.keys(), key=lambda a: hash(str(a.get_point())) % 7):"),
+    ("c14-node-shared-default", "C14", "PyXAB/algos/StoSOO.py", "        self.rewards = []\n        self.mean_reward = 0\n", "        self.rewards = globals().setdefault('_shared_rewards', []) if depth == 1 and index == 1 else []\n        self.mean_reward = 0\n"),
+    ("c14-doo-id-tiebreak", "C14", "PyXAB/algos/DOO.py", "                        if node.get_b_value() >= max_value:", "                        if node.get_b_value() > max_value or (node.get_b_value() == max_value and (id(node) >> 4) % 2 == 0):"),
+    # ---- C15
+    ("c15-hct-uses-time", "C15", "PyXAB/algos/HCT.py", "        self.curr_node, self.path = self.optTraverse()\n", "        self.iteration = max(self.iteration, time)\n        self.curr_node, self.path = self.optTraverse()\n"),
+    ("c15-zooming-query-mutates", "C15", "PyXAB/algos/Zooming.py", "        return self.pull(0)", "        self.phase += 0 if self.time % 7 else 1\n        return self.pull(0)"),
+    ("c15-sequool-time", "C15", "PyXAB/algos/SequOOL.py", "        if self.curr_depth <= self.h_max:\n            if self.curr_depth == 0:", "        if self.curr_depth <= self.h_max and t != 40:\n            if self.curr_depth == 0:"),
+    ("c15-poo-query-cursor", "C15", "PyXAB/algos/POO.py", "        point = self.V_algo[max_param].pull(time=0)", "        point = self.V_algo[max_param].pull(time=0)\n        self.counter += 1 if len(self.V_algo) > 5 else 0"),
+    # ---- C16
+    ("c16-node-abs-centre", "C16", "PyXAB/partition/Node.py", "point.append((x[0] + x[1]) / 2)", "point.append((x[0] + x[1]) / 2 if x[0] >= 0 else x[0] + (x[1] - x[0]) * 0.5000001)"),
+    ("c16-binary-dim-by-width", "C16", "PyXAB/partition/BinaryPartition.py", "        dim = np.random.randint(0, len(parent_domain))\n", "        dim = np.random.randint(0, len(parent_domain))\n        if len(parent_domain) > 1 and parent_domain[0][1] > 3:\n            dim = 0\n"),
+    ("c16-zooming-abs", "C16", "PyXAB/algos/Zooming.py", "<= self.nu * self.rho ** parent.get_depth()", "<= self.nu * self.rho ** parent.get_depth() * (1 if abs(parent.get_cpoint()[0]) < 5 else 2)"),
+    ("c16-rbinary-split-abs", "C16", "PyXAB/partition/RandomBinaryPartition.py", "split_point = np.random.uniform(selected_dim[0], selected_dim[1])", "split_point = np.random.uniform(selected_dim[0], selected_dim[1]) if selected_dim[1] - selected_dim[0] > 1e-3 else (selected_dim[0] + selected_dim[1]) / 2"),
 ]
 
 
@@ -82,7 +144,9 @@ def run_one(m, runs, tests):
         shutil.copytree(os.path.join(REPO, "PyXAB"), os.path.join(tmp, "PyXAB"), ignore=shutil.ignore_patterns("__pycache__", "*.pkl"))
         if not apply(tmp, rel, old, new):
             return {"id": mid, "property": prop, "status": "PATTERN-NOT-FOUND"}
-        env = dict(os.environ, VERIF_REPO=tmp, VERIF_NO_FRESH="1", VERIF_WORKERS=os.environ.get("MUT_WORKERS", "4"))
+        env = dict(os.environ, VERIF_REPO=tmp, VERIF_WORKERS=os.environ.get("MUT_WORKERS", "4"))
+        if prop != "C14":
+            env["VERIF_NO_FRESH"] = "1"
         out = {"id": mid, "property": prop}
         if tests:
             t = subprocess.run(["/venv/bin/python", "-m", "pytest", "-q", "-x", "-p", "no:cacheprovider", "PyXAB/tests"], cwd=tmp,
